@@ -11,7 +11,7 @@ VARIANTS = {'quick': ['asan', 'plain'], 'thorough': ['asan', 'plain', 'asan-tdbg
 RULE = ('mpz_powm/powm_ui over moduli odd, even with 2-adic valuation 1,63,64,65,128 and whole zero low limbs, 2^k, +-1, '
         'sizes 1..12 limbs and around REDC_1_TO_REDC_2/REDC_2_TO_REDC_N/POWM thresholds; bases negative, 0, 1, m-1, >m, multiples of m; '
         'exponents 0,1,2, all-ones of every length 1..70 and at each sliding-window breakpoint (7,25,81,241,673,1793,4609 bits)+-1, sparse '
-        'and multi-limb exponents, negative exponents with invertible base; thin-band residues (b=+-1,+-2, small e); mpz_pow_ui / '
+        'and multi-limb exponents, negative exponents with invertible base; exponent 1/2 with |b| within a few limbs of m or of B^(n-1) and residues 1..n limbs; thin-band residues (b=+-1,+-2, small e); mpz_pow_ui / '
         'ui_pow_ui with 0^0, bases 0,+-1,+-2,2^k,B-1, multi-limb; judged by Python pow. distinct = (function, modulus class, size '
         'buckets, exponent class, base class); trivial = e==0 or |m|==1')
 ASSUMPTIONS = ['Python pow(b,e,m) and ** are exact', 'negative exponent with non-invertible base, zero modulus: not generated (manual: division by zero)']
@@ -70,6 +70,11 @@ def specs(rng, tier, wid, nw, env):
                     if mn > 40 and ec in ('winfull', 'limbs', 'win') and q and bc != 'rand': continue
                     k += 1
                     if k % nw == wid: yield ('powm', mn, mc, ec, bc, rng.randint(0, 1), rng.getrandbits(48))
+    # exponent 1 (and 2): the b^1 shortcut; |b| just below / above B^(n-1), m - |b| several limbs shorter than m (F16)
+    for mn in range(1, 10):
+        for j in range(24 if q else 200):
+            k += 1
+            if k % nw == wid: yield ('e1', mn, j, rng.getrandbits(48))
     N = 20000 if q else 300000
     for i in range(N):
         c = rng.random()
@@ -80,6 +85,21 @@ def specs(rng, tier, wid, nw, env):
 
 def build(spec, env):
     kind = spec[0]; r = random.Random(spec[-1])
+    if kind == 'e1':
+        _, mn, j, _s = spec
+        top = 1 << (64 * (mn - 1))
+        m = top * r.choice([1, 1, 2, 1 << 63]) + (gen.nat(r, r.randint(1, max(1, mn - 1))) if mn > 1 and j % 3 else r.choice([0, 1, 3])) or 3
+        d = gen.nat(r, r.randint(1, max(1, mn - 1)), r.choice(['rand', 'ones', 'special'])) if j % 2 else r.randint(0, 3)
+        b = r.choice([m - d, top - d, top + d, m + d, (m - d) * r.choice([1, 1 << 64, 3])]) * (-1 if j % 4 < 3 else 1)
+        e = 1 if j % 8 else 2
+        cmds = ['z Z1 %s' % hx(b), 'z Z2 %s' % hx(e), 'z Z3 %s' % hx(m), 'c mpz_powm Z0 Z1 Z2 Z3', 'c mpz_powm_ui Z4 Z1 #%d Z3' % e, 'c mpz_powm Z1 Z1 Z2 Z3']
+        def check(rep, b=b, e=e, m=m):
+            out = []; want = pow(b, e, m)
+            for idx, fn in ((3, 'mpz_powm'), (4, 'mpz_powm_ui'), (5, 'mpz_powm:r=b')):
+                v, _ = split_reply(rep[idx])
+                if I(v[0]) != want: out.append(('%s:wrong:e1' % fn, 'b=%s e=%d m=%s got=%s want=%s' % (hx(b)[:60], e, hx(m)[:60], v[0][:60], hx(want)[:60])))
+            return out
+        return Case(cmds, check, 3, ('e1', mn, gen.nlimbs(b), gen.nlimbs(pow(b, e, m)), b < 0, e), trivial=(m == 1))
     if kind in ('powm', 'thin'):
         if kind == 'powm':
             _, mn, mc, ec, bc, mneg, _s = spec
